@@ -458,6 +458,7 @@ func (el *EventList) uncompress(c *compressedEventList) error {
 	}
 	// (also when there are none: the list may have been used before)
 	el.Events = make([]*Event, len(c.E))
+	el.validationErr, el.product = nil, nil
 	if el.ComputeProduct {
 		el.product = big.NewInt(1)
 	}
